@@ -161,6 +161,10 @@ def gen_schema(rng, sw):
     for _ in range(n_compound):
         kinds = ["struct"] * 4 + ["array"] * 4
         targets = [i for i in range(len(schema)) if schema[i]["k"] in ("struct", "array") and depth(schema, i) < max_depth]
+        # classes that share their name with another class are never referred to (references and unions
+        # identify types by name: known finding C08-same-name-twin-aliased)
+        dup = {ty.get("name") for ty in schema if ty["k"] == "array" and sum(1 for x in schema if x.get("name") == ty.get("name")) > 1}
+        targets = [i for i in targets if schema[i].get("name") not in dup]
         if sw.get("refs") and targets:
             kinds += ["ref"] * 2
         if sw.get("urefs") and targets:
@@ -214,7 +218,12 @@ def gen_schema(rng, sw):
                     rng.shuffle(order)
             decl = "sugar"
             sname = f"Arr{sugar_suffix(shape)}{type_name(schema, item)}"
-            if sname in names or (sw.get("class_arrays") and rng.random() < 0.35):
+            twin = bool(sw.get("name_twins")) and sname in names and nd > 1 and any(ty["k"] == "array" and ty["name"] == sname and ty["decl"] == "sugar" and ty["shape"] == shape and ty["item"] == item and list(ty["order"]) != list(order) for ty in schema)
+            if twin:
+                # a second array class with the same generated name: the name spells item type and
+                # shape, not the axis order (Float64[2,3] and Float64[2:1,3:0] are both Arr2x3Float64)
+                name = sname
+            elif sname in names or (sw.get("class_arrays") and rng.random() < 0.35):
                 decl = "class"
                 name = f"A{next(counter)}"
                 if order == list(range(nd)) and rng.random() < 0.5:
@@ -228,6 +237,10 @@ def gen_schema(rng, sw):
             if sw.get("np_dims") and (nd > 1 or decl == "class") and rng.random() < 0.5:
                 arr["np_dims"] = True  # dimensions given as numpy integers
             schema.append(arr)
+            if sw.get("name_twins") and decl == "sugar" and nd > 1 and rng.random() < 0.6 and _twin_free(schema, len(schema) - 1):
+                o2 = list(reversed(order)) if rng.random() < 0.6 or nd == 2 else order[1:] + order[:1]
+                if o2 != list(order):
+                    schema.append(dict(arr, order=o2))
         elif kind == "ref":
             to = rng.choice(targets[-5:])
             if any(ty["k"] == "ref" and ty["to"] == to for ty in schema):
@@ -245,7 +258,8 @@ def gen_schema(rng, sw):
         # a second union over a different member list (same classes at other positions, some only
         # in one of the two), held by a struct: what one union learns must not leak into the other
         u1 = schema[urefs_[-1]]
-        pool = [c for c in cands_ if c not in u1["members"]] + list(u1["members"])
+        dup_ = {ty.get("name") for ty in schema if ty["k"] == "array" and sum(1 for x in schema if x.get("name") == ty.get("name")) > 1}
+        pool = [c for c in cands_ if c not in u1["members"] and schema[c].get("name") not in dup_] + list(u1["members"])
         k2 = min(len(pool), rng.choice([1, 2, 3]))
         members = rng.sample(pool, k2)
         if members != list(u1["members"]):
@@ -290,6 +304,11 @@ def gen_schema(rng, sw):
                 names.add(name)
                 schema.append({"k": "array", "name": name, "item": rm, "shape": shape, "order": [0], "decl": "sugar", "order_decl": None})
     return schema
+
+
+def _twin_free(schema, t):
+    """No reference or union names type t yet (a same-named twin may then be added)."""
+    return not any((ty["k"] == "ref" and ty["to"] == t) or (ty["k"] == "uref" and t in ty["members"]) for ty in schema)
 
 
 def _small_scalar(rng, t):
